@@ -116,13 +116,14 @@ func init() {
 		ID: "C13", Level: "exploration", Workers: 16, QuickSecs: 240, ThorSecs: 1800,
 		Rule: "five suites are enumerated in two processes (SONIC_MODE unset = AVX2 on this host, SONIC_MODE=noavx2 = SSE): structural validation of token strings and length strata through 17 consuming APIs; the C01 decode suite; the C03 encode suite; " +
 			"native string routines (Quote, unquote, HTMLEscape, utf8 validate/correct, Unmarshal, Get, ast) on 20 payloads at every offset of every length 0..136; number formatting for all 2048 exponents x 10 mantissa patterns x sign and number parsing of 29 boundary literals at 40 paddings; digests compared case by case, mismatches regenerated in full. " +
+			"Suite errpos: every length stratum and every token string <= 3/4 tokens through Unmarshal / decoder.Skip / Get / NewRaw.Check with the reported error POSITION and code in the observation. " +
 			"distinct_nontrivial = distinct observation digests of the AVX2 configuration",
 		Assume: []string{"the host supports AVX2 (otherwise both processes run the SSE routines and the check is vacuous: reported)", "a 64-bit FNV digest collision could hide a difference"},
 		Run: func(c *ev.Ctx, r *ev.Report) {
 			if xchild(c, r) {
 				return
 			}
-			for _, s := range []string{"native", "valid", "enc-types", "dec"} {
+			for _, s := range []string{"errpos", "native", "valid", "enc-types", "dec"} {
 				xcompare(c, r, "C13", s, c13cfgs, xkeyShape3)
 			}
 			r.Sample(map[string]string{"suites": "native valid enc-types dec", "configs": "avx2 | sse"})
